@@ -119,7 +119,43 @@ func init() {
 			}
 			return "some req_path", nil
 		}
-		return irEmit(r, w, file, "MuxPath", "rewrite", s,
-			"Result: the request path after the call (`r.SetPath`), `none` = nil dereference of `mp.pathRE`.")
+		if err := irEmit(r, w, file, "MuxPath", "rewrite", s,
+			"Result: the request path after the call (`r.SetPath`), `none` = nil dereference of `mp.pathRE`."); err != nil {
+			return err
+		}
+		// Path.Validate (spec.go): the hypothesis `PathValid` of rewrite_total / serve_satisfies_spec.
+		// `p.PathRegexp` is the source of the model's `pathRE` (newMuxPath compiles it iff non-empty).
+		w.Line("/-- the spec string `PathRegexp` as far as `Validate` looks at it: empty iff no regexp is compiled -/")
+		w.Line("def reSrc (r : Option Nat) : String := if r.isSome then \"re\" else \"\"")
+		w.Line("")
+		v := &irSpec{
+			Name:    "pathValidateIR",
+			Binders: "(e : PathEntry)",
+			BNames:  []string{"e"},
+			RetTy:   "Bool",
+			Recv:    irTerm{"e", "Path"},
+			LeanTy:  map[string]string{"Path": "PathEntry"},
+			Fields: map[string]irField{
+				"Path.Path":          {Fmt: "%s.path", Ty: "String"},
+				"Path.PathPrefix":    {Fmt: "%s.pathPrefix", Ty: "String"},
+				"Path.PathRegexp":    {Fmt: "(reSrc %s.pathRE)", Ty: "String"},
+				"Path.RewriteTarget": {Fmt: "%s.rewriteTarget", Ty: "String"},
+			},
+			Funcs: map[string]irCall{
+				"stringtool.IsAllEmpty": {Fmt: "((%[1]s == \"\") && (%[2]s == \"\") && (%[3]s == \"\"))", Ty: "Bool", NArgs: 3},
+				"fmt.Errorf":            {Fmt: "true", Ty: "Error", NArgs: -1},
+			},
+			Ret: func(v []irTerm) (string, error) { // the result is "an error was returned"
+				if len(v) != 1 || (v[0].Ty != "Error" && v[0].Ty != "nil") {
+					return "", errUnsupportedReturn
+				}
+				if v[0].Ty == "nil" {
+					return "false", nil
+				}
+				return v[0].S, nil
+			},
+		}
+		return irEmit(r, w, "pkg/object/httpserver/spec.go", "Path", "Validate", v,
+			"Result: `Validate` returned an error (the spec is rejected).")
 	}})
 }
